@@ -44,6 +44,9 @@ type frame struct {
 	// label of the statement about to be entered
 	branchLabel string
 	nextLabel   string
+	// deferred calls of the function this frame belongs to, in order of the
+	// defer statements (run last-in first-out when the function returns)
+	defers []func()
 }
 
 func (f *frame) lookup(o types.Object) *Cell {
@@ -103,6 +106,7 @@ func (in *Interp) apply(fv *FuncV, args []Value, at token.Pos) []Value {
 		fr := &frame{vars: map[types.Object]*Cell{}, parent: fv.Env, pkg: fv.Env.pkg}
 		in.bindParams(fr, fv.Lit.Type, nil, nil, args, fr.pkg.TypesInfo)
 		in.execBlock(fr, fv.Lit.Body)
+		in.runDefers(fr)
 		return fr.results()
 	}
 	decl := in.P.Decl(fv.Obj)
@@ -120,7 +124,15 @@ func (in *Interp) apply(fv *FuncV, args []Value, at token.Pos) []Value {
 	fr := &frame{vars: map[types.Object]*Cell{}, pkg: pkg}
 	in.bindParams(fr, decl.Type, decl.Recv, fv.Recv, args, pkg.TypesInfo)
 	in.execBlock(fr, decl.Body)
+	in.runDefers(fr)
 	return fr.results()
+}
+
+func (in *Interp) runDefers(fr *frame) {
+	for i := len(fr.defers) - 1; i >= 0; i-- {
+		fr.defers[i]()
+	}
+	fr.defers = nil
 }
 
 func (fr *frame) results() []Value {
@@ -365,8 +377,36 @@ func (in *Interp) exec(fr *frame, s ast.Stmt) ctl {
 	case *ast.EmptyStmt:
 		return ctlNone
 	case *ast.DeferStmt:
-		// the generator defers nothing that matters to emitted text; a
-		// deferred Close on an opened import is the only instance.
+		// function value and arguments are evaluated now, the call is made when
+		// the surrounding function returns
+		call := s.Call
+		if tv, ok := info.Types[call.Fun]; ok && tv.IsType() {
+			return ctlNone
+		}
+		if id, ok := ast.Unparen(call.Fun).(*ast.Ident); ok {
+			if b, isB := info.Uses[id].(*types.Builtin); isB {
+				// delete(m, k), close… : operands of these are variables that do not
+				// change before the function returns in the generator; evaluated at exit
+				name := b.Name()
+				if name != "delete" {
+					panic(evalErr("deferred builtin %s unsupported at %s", name, in.pos(s.Pos())))
+				}
+				fr.defers = append(fr.defers, func() { in.builtin(fr, name, call) })
+				return ctlNone
+			}
+		}
+		fnv := in.eval1(fr, call.Fun)
+		fv, ok := fnv.(*FuncV)
+		if !ok {
+			panic(evalErr("defer of non-function %T at %s", fnv, in.pos(s.Pos())))
+		}
+		var args []Value
+		for _, a := range call.Args {
+			args = append(args, in.eval1(fr, a))
+		}
+		pos := call.Pos()
+		root := fr
+		root.defers = append(root.defers, func() { in.apply(fv, args, pos) })
 		return ctlNone
 	}
 	panic(evalErr("unsupported statement %T at %s", s, in.pos(s.Pos())))
